@@ -297,9 +297,6 @@ def run(tier, seed):
             kind = type(obj).__name__
             label = '%s:%s' % (name, kind)
             sel = dict(check='param_tree', object=name, kind='LinkedAsset' if (kind == 'LinkedAsset' or (kind == 'Portfolio' and name == 'linked')) else kind)
-            if sel['kind'] == 'LinkedAsset':
-                chk.cnt['param_tree_skipped_not_loadable'] += 1      # known finding F11: cannot be loaded at all
-                continue
             try:
                 with quiet():
                     keys, tree = eao.io.get_params_tree(obj)
